@@ -118,13 +118,28 @@ func runC02Fill(c *Ctx) {
 	type setCall struct {
 		call ssa.CallInstruction
 		ch   byte
+		site ssa.Instruction // where it happens in extractIntersectionMatrix: the call itself, or the call of the helper it was moved to
 	}
 	var sets []setCall
 	for _, call := range callsTo(f, "geom.(*matrix).set") {
 		if k, ok := constInt(call.Common().Args[3]); ok {
-			sets = append(sets, setCall{call, byte(k)})
+			sets = append(sets, setCall{call, byte(k), call.(ssa.Instruction)})
 		}
 	}
+	// writes moved into helpers introduced after the baseline (one per dimension, say)
+	eachCall(f, func(hc ssa.CallInstruction) {
+		h := staticCallee(hc)
+		if h == nil || !isNewHelper(h) || len(h.Blocks) == 0 {
+			return
+		}
+		for _, g := range withNewHelpers(h) {
+			for _, call := range callsTo(g, "geom.(*matrix).set") {
+				if k, ok := constInt(call.Common().Args[3]); ok {
+					sets = append(sets, setCall{call, byte(k), hc.(ssa.Instruction)})
+				}
+			}
+		}
+	})
 	if len(sets) != 3 {
 		c.Errorf("extractIntersectionMatrix has %d set calls with constant entries, expected 3", len(sets))
 	}
@@ -133,7 +148,17 @@ func runC02Fill(c *Ctx) {
 		construct := fmt.Sprintf("entries of dimension %q", string(s.ch))
 		bad := ""
 		for _, o := range sets {
-			if o.ch < s.ch && reaches(s.call.Block(), o.call.Block(), nil) && s.call.Block() != o.call.Block() {
+			after := false // the write of the lower dimension can execute after this one
+			switch {
+			case s.site == o.site:
+				// both inside one helper call: their order within that helper
+				after = s.call.Parent() == o.call.Parent() && s.call.Block() != o.call.Block() && reaches(s.call.Block(), o.call.Block(), nil)
+			case s.site.Block() != o.site.Block():
+				after = reaches(s.site.Block(), o.site.Block(), nil)
+			default:
+				after = instrIndex(o.site) > instrIndex(s.site)
+			}
+			if o.ch < s.ch && after {
 				bad = fmt.Sprintf("a write of %q can be followed by a write of the lower dimension %q, which overwrites it", string(s.ch), string(o.ch))
 			}
 		}
